@@ -17,29 +17,18 @@
 //@struct file=poly-commit/src/data_structures.rs name=LinearCombination
 //@use pctypes pcenv
 //@spec group_spec batch_spec
+//@use lcenv
+//@spec lc_default_spec
 pub struct BatchLCProof { pub proof: BatchProof, pub evals: Option<Vec<Fr>> }
 impl LinearCombination { pub fn label(&self) -> (r: &String) ensures *r == self.label { &self.label } }
+impl LCTerm {
+//@stub from=linear_combination.rs id=lc.LCTerm.is_one vis=pub
+}
 // ---- trusted environment of this method ----
-// lc_query_set_to_poly_query_set (lib.rs): the (polynomial label, point label, point) triples needed by the queried combinations
-pub uninterp spec fn pqs_spec(lcs: Map<&String, &LinearCombination>, qs: Set<(String, (String, Pt))>) -> Set<(String, (String, Pt))>;
-#[verifier::external_body]
-pub fn lc_query_set_to_poly_query_set(lcs: &BTreeMap<&String, &LinearCombination>, query_set: &BTreeSet<(String, (String, Pt))>) -> (r: BTreeSet<(String, (String, Pt))>)
-    ensures r@ == pqs_spec(lcs@, query_set@) { unimplemented!() }
-// the pairing of the prover-supplied evaluation list with the polynomial queries sorted by (label, point, point label)
-// [`sorted_by_poly_and_query_label` zip `evals`, collected into a map]: taken by contract, NOT verified
-pub uninterp spec fn pevals_spec(pqs: Set<(String, (String, Pt))>, evals: Option<Vec<Fr>>) -> Map<(String, Pt), Fr>;
-#[verifier::external_body]
-pub fn build_poly_evals(poly_query_set: &BTreeSet<(String, (String, Pt))>, evals: &Option<Vec<Fr>>) -> (r: BTreeMap<(String, Pt), Fr>)
-    ensures evals is Some, r@ == pevals_spec(poly_query_set@, *evals) { unimplemented!() }
 #[verifier::external_body] pub fn string_into(s: String) -> (r: String) ensures r == s { unimplemented!() }   // String::into::<String>
 #[verifier::external_body] pub fn rt_label(l: &String, p: &Pt) -> (r: String) { unimplemented!() }        // format!("{}-{:?}", l, point): error text only
 
 // ======================= specification =======================
-pub open spec fn l_is_last(ls: Seq<&LinearCombination>, i: int) -> bool { 0 <= i < ls.len() && forall|j: int| i < j < ls.len() ==> (#[trigger] ls[j]).label != ls[i].label }
-pub open spec fn lmap_ok(m: Map<&String, &LinearCombination>, ls: Seq<&LinearCombination>) -> bool {
-    (forall|k: &String| m.dom().contains(k) == (exists|i: int| 0 <= i < ls.len() && (#[trigger] ls[i]).label == *k))
-    && (forall|i: int| #[trigger] l_is_last(ls, i) ==> m[&ls[i].label] == ls[i])
-}
 // value of the first k terms of a combination at `pt` under the (to be verified) polynomial evaluations pe; None if one is missing
 pub open spec fn lc_sum(ts: Seq<(Fr, LCTerm)>, pt: Pt, pe: Map<(String, Pt), Fr>, k: nat) -> Option<FS> decreases k {
     if k == 0 { Some(f_zero()) } else {
@@ -71,8 +60,8 @@ pub open spec fn crun(m: Map<&String, &LinearCombination>, q: Seq<(String, (Stri
     }
 }
 pub open spec fn cc_post(vk: &VK, lcs: Seq<&LinearCombination>, cs: Seq<&LabeledCommitment<Comm>>, qs: Set<(String, (String, Pt))>, ev: Map<(String, Pt), Fr>, pr: &BatchLCProof, s0: SS, res: Result<bool, Error>, s1: SS) -> bool {
-    exists|m: Map<&String, &LinearCombination>| #![trigger lmap_ok(m, lcs)] lmap_ok(m, lcs) && {
-        let pqs = pqs_spec(m, qs); let pe = pevals_spec(pqs, pr.evals);
+    exists|m: Map<&String, &LinearCombination>, pqs: Set<(String, (String, Pt))>| #![trigger lmap_ok(m, lcs), is_pqs(m, qs, pqs)] lmap_ok(m, lcs) && is_pqs(m, qs, pqs) && {
+        let pe = pevals_spec(pqs, pr.evals);
         match crun(m, set_seq(qs), ev, pe, set_seq(qs).len()) {
             EqS::Error => res is Err,
             EqS::Rejected => res == Ok::<bool, Error>(false) && s1 == s0,
@@ -82,6 +71,91 @@ pub open spec fn cc_post(vk: &VK, lcs: Seq<&LinearCombination>, cs: Seq<&Labeled
     }
 }
 
+//@fn id=lib.lc_query_set_to_poly_query_set file=poly-commit/src/lib.rs scope=top name=lc_query_set_to_poly_query_set props=C06
+#[verifier::loop_isolation(false)]
+pub fn lc_query_set_to_poly_query_set<'a>(linear_combinations: Vec<&'a LinearCombination>, query_set: &BTreeSet<(String, (String, Pt))>) -> (r: BTreeSet<(String, (String, Pt))>)
+    ensures
+        // exactly the (polynomial label, (point label, point)) triples behind the queried combinations (the last combination carrying a label counts)
+        forall|m: Map<&String, &LinearCombination>| #[trigger] lmap_ok(m, linear_combinations@) ==> is_pqs(m, query_set@, r@),   // name=lib.lc_query_set_to_poly_query_set.exactly_the_polynomial_queries_behind_the_combination_queries props=C06
+//@body
+//@rw 1 /let mut poly_query_set = QuerySet::<T>::new\(\);/ => let mut poly_query_set: BTreeSet<(String, (String, Pt))> = qset_new();
+//@rw 1 /(?s)let lc_s = (linear_combinations\.into_iter\(\)\.map\(.*?\));\s*let linear_combinations = BTreeMap::from_iter\(lc_s\);/ => let lv__: Vec<(&String, &LinearCombination)> = \1.collect();
+    let linear_combinations: BTreeMap<&String, &LinearCombination> = btree_from_pairs(lv__);
+    proof {
+        assert forall|i: int| #[trigger] l_is_last(ls0, i) implies linear_combinations@[&ls0[i].label] == ls0[i] by {
+            assert(lv__@[i].0 == &ls0[i].label);
+            assert forall|j: int| i < j < lv__@.len() implies lv__@[j].0 != lv__@[i].0 by { assert(*lv__@[j].0 == ls0[j].label); }
+        }
+        assert forall|k: &String| linear_combinations@.dom().contains(k) == (exists|i: int| 0 <= i < ls0.len() && (#[trigger] ls0[i]).label == *k) by {
+            if linear_combinations@.dom().contains(k) { let i = choose|i: int| 0 <= i < lv__@.len() && (#[trigger] lv__@[i]).0 == k; assert(ls0[i].label == *k); }
+            if exists|i: int| 0 <= i < ls0.len() && (#[trigger] ls0[i]).label == *k { let i = choose|i: int| 0 <= i < ls0.len() && (#[trigger] ls0[i]).label == *k; assert(lv__@[i].0 == k); }
+        }
+        assert(lmap_ok(linear_combinations@, ls0));
+    }
+//@closure |lc| => |lc: &'a LinearCombination| -> (kv: (&String, &LinearCombination)) ensures *kv.0 == lc.label, kv.1 == lc
+//@rw 1 /for \(lc_label, \(point_label, point\)\) in([^{]*?)query_set([^{]*)\{/ => let qv__ = query_set_to_vec(query_set); for q__ in\1qv__.iter()\2{ let lc_label: &String = &q__.0; let point_label: &String = &q__.1.0; let point: &Pt = &q__.1.1;
+//@rw 1 /linear_combinations\.get\(lc_label\)/ => btree_get_by_label(&linear_combinations, lc_label)
+//@rw 1 /for \(_, poly_label\) in([^{]*?)lc\.iter\(\)\.filter\(\|\(_, l\)\| (.*?)\)((?:\s|\d+)*)\{/ => for ct__ in\1lc.terms.iter()\3{ let poly_label: &LCTerm = &ct__.1; let l: &LCTerm = poly_label; let ghost b = it2.index@; proof { assert(*ct__ == lc.terms@[b]); } if \2 {
+//@rw 1 /poly_query_set\.insert\((.*)\);/ => qset_insert(&mut poly_query_set, \1);
+//@rw * /\bl\.into\(\)/ => string_to_string(l)
+//@rw * /point_label\.clone\(\)/ => string_to_string(point_label)
+//@after start
+    let ghost ls0 = linear_combinations@;
+//@beforeloop 1
+    let ghost mm = linear_combinations@;
+    let ghost qseq = set_seq(query_set@);
+//@loop 1 kw=for name=it
+        invariant it.index@ <= qv__@.len(), qv__@.len() == qseq.len(), forall|i: int| 0 <= i < qseq.len() ==> *(#[trigger] qv__@[i]) == qseq[i], mm == linear_combinations@,
+            forall|e: (String, (String, Pt))| poly_query_set@.contains(e) == pq_upto(mm, qseq, it.index@, e),
+//@loopstart 1
+        let ghost a = it.index@;
+        let ghost s1 = poly_query_set@;
+        proof { assert(*q__ == qseq[a]); }
+//@loop 2 kw=for name=it2
+                invariant it2.index@ <= lc.terms@.len(), mm.dom().contains(lc_label), mm[lc_label] == lc, *q__ == qseq[a],
+                    forall|e: (String, (String, Pt))| poly_query_set@.contains(e) == (pq_upto(mm, qseq, a, e) || pq_in(mm, qseq[a], it2.index@, e)),
+//@loopend 2
+                }
+                proof {
+                    let q = qseq[a];
+                    assert forall|e: (String, (String, Pt))| poly_query_set@.contains(e) == (pq_upto(mm, qseq, a, e) || pq_in(mm, q, b + 1, e)) by {
+                        if pq_in(mm, q, b + 1, e) && !pq_in(mm, q, b, e) { let j = choose|j: int| 0 <= j < b + 1 && #[trigger] hit(mm, q, j, e); assert(j == b); }
+                        if pq_in(mm, q, b, e) { let j = choose|j: int| 0 <= j < b && #[trigger] hit(mm, q, j, e); assert(hit(mm, q, j, e)); }
+                        match lc.terms@[b].1 {
+                            LCTerm::One => {},
+                            LCTerm::PolyLabel(l) => { let e0 = (l, q.1); assert(hit(mm, q, b, e0)); if e == e0 { assert(pq_in(mm, q, b + 1, e)); } },
+                        }
+                    }
+                }
+//@afterloop 2
+            proof {
+                assert forall|e: (String, (String, Pt))| poly_query_set@.contains(e) == pq_upto(mm, qseq, a + 1, e) by {
+                    let q = qseq[a];
+                    if pq_in(mm, q, lc.terms@.len() as int, e) { let j = choose|j: int| 0 <= j < lc.terms@.len() && #[trigger] hit(mm, q, j, e); assert(hit(mm, qseq[a], j, e)); }
+                    if pq_upto(mm, qseq, a, e) { let (x, j) = choose|x: int, j: int| 0 <= x < a && #[trigger] hit(mm, qseq[x], j, e); assert(hit(mm, qseq[x], j, e)); }
+                    if pq_upto(mm, qseq, a + 1, e) && !pq_upto(mm, qseq, a, e) { let (x, j) = choose|x: int, j: int| 0 <= x < a + 1 && #[trigger] hit(mm, qseq[x], j, e); assert(x == a); assert(pq_in(mm, q, lc.terms@.len() as int, e)); }
+                }
+            }
+//@loopend 1
+        proof {
+            if !mm.dom().contains(lc_label) {
+                assert forall|e: (String, (String, Pt))| poly_query_set@.contains(e) == pq_upto(mm, qseq, a + 1, e) by {
+                    if pq_upto(mm, qseq, a, e) { let (x, j) = choose|x: int, j: int| 0 <= x < a && #[trigger] hit(mm, qseq[x], j, e); assert(hit(mm, qseq[x], j, e)); }
+                    if pq_upto(mm, qseq, a + 1, e) && !pq_upto(mm, qseq, a, e) { let (x, j) = choose|x: int, j: int| 0 <= x < a + 1 && #[trigger] hit(mm, qseq[x], j, e); assert(x == a); }
+                }
+            }
+        }
+//@before /poly_query_set\s*\}$/
+    proof {
+        assert forall|m: Map<&String, &LinearCombination>| #[trigger] lmap_ok(m, ls0) implies is_pqs(m, query_set@, poly_query_set@) by {
+            lemma_lmap_unique(m, mm, ls0);
+            assert forall|e: (String, (String, Pt))| poly_query_set@.contains(e) == pq_of(m, query_set@, e) by {
+                if pq_upto(mm, qseq, qseq.len() as int, e) { let (x, j) = choose|x: int, j: int| 0 <= x < qseq.len() && #[trigger] hit(mm, qseq[x], j, e); assert(query_set@.contains(qseq[x])); assert(hit(m, qseq[x], j, e)); }
+                if pq_of(m, query_set@, e) { let (q, j) = choose|q: (String, (String, Pt)), j: int| query_set@.contains(q) && #[trigger] hit(m, q, j, e); let x = choose|x: int| 0 <= x < qseq.len() && #[trigger] qseq[x] == q; assert(hit(mm, qseq[x], j, e)); }
+            }
+        }
+    }
+//@end
 pub struct PC;
 impl PC {
 //@stub from=batch_default.rs id=lib.batch_check
@@ -107,8 +181,57 @@ impl PC {
             assert(lmap_ok(lc_s@, ls0));
         }
 //@closure |lc| => |lc: &'a LinearCombination| -> (kv: (&String, &LinearCombination)) ensures *kv.0 == lc.label, kv.1 == lc
-//@rw 1 /lc_query_set_to_poly_query_set\(lc_s\.values\(\)\.copied\(\), eqn_query_set\)/ => lc_query_set_to_poly_query_set(&lc_s, eqn_query_set)
-//@rw 1 /(?s)let sorted_by_poly_and_query_label: BTreeSet<_> = poly_query_set.*?let poly_evals = Evaluations::from_iter\(.*?\n        \);/ => let poly_evals = build_poly_evals(&poly_query_set, evals);
+//@rw 1 /let poly_query_set = lc_query_set_to_poly_query_set\(lc_s\.values\(\)\.copied\(\), eqn_query_set\);/ => let vals__: Vec<&LinearCombination> = lcmap_values_vec(&lc_s);
+        proof {
+            // the map rebuilt from the values of lc_s is lc_s itself: its values carry pairwise different labels, each its own key
+            let ks = mkeys(lc_s@);
+            assert forall|k: &String| lc_s@.dom().contains(k) implies lc_s@[k].label == *k by {
+                let i0 = choose|i: int| 0 <= i < ls0.len() && (#[trigger] ls0[i]).label == *k;
+                let i = lemma_last_lc(ls0, *k, i0, ls0.len() as int);
+                assert(l_is_last(ls0, i));
+            }
+            assert forall|i: int| 0 <= i < vals__@.len() implies (#[trigger] vals__@[i]).label == ks[i] by { assert(lc_s@.dom().contains(&ks[i])); }
+            assert forall|i: int| #[trigger] l_is_last(vals__@, i) implies lc_s@[&vals__@[i].label] == vals__@[i] by { }
+            assert forall|k: &String| lc_s@.dom().contains(k) == (exists|i: int| 0 <= i < vals__@.len() && (#[trigger] vals__@[i]).label == *k) by {
+                if lc_s@.dom().contains(k) { let i = choose|i: int| 0 <= i < ks.len() && #[trigger] ks[i] == *k; assert(vals__@[i].label == *k); }
+                if exists|i: int| 0 <= i < vals__@.len() && (#[trigger] vals__@[i]).label == *k { let i = choose|i: int| 0 <= i < vals__@.len() && (#[trigger] vals__@[i]).label == *k; assert(lc_s@.dom().contains(&ks[i])); }
+            }
+            assert(lmap_ok(lc_s@, vals__@));
+        }
+        let poly_query_set = lc_query_set_to_poly_query_set(vals__, eqn_query_set);
+        proof { assert(is_pqs(lc_s@, eqn_query_set@, poly_query_set@)); }
+//@rw 1 /(?s)let sorted_by_poly_and_point: BTreeSet<_> = poly_query_set\s*\.clone\(\)\s*\.into_iter\(\)\s*\.map\(\|\(poly_label, v\)\| (.*?)\)\s*\.collect\(\);/ => let pv__: Vec<(String, (String, Pt))> = qset_clone_into_vec(&poly_query_set);
+        let kv__: Vec<(String, Pt)> = pv__.into_iter().map(|e__: (String, (String, Pt))| -> (o: (String, Pt)) ensures o == (e__.0, e__.1.1) { let (poly_label, v) = e__; \1 }).collect();
+        let sorted_by_poly_and_point: BTreeSet<(String, Pt)> = keyset_from_vec(kv__);
+        proof {
+            let pqs = poly_query_set@; let sq = set_seq(pqs);
+            assert forall|k: (String, Pt)| sorted_by_poly_and_point@.contains(k) == keyset(pqs).contains(k) by {
+                if sorted_by_poly_and_point@.contains(k) { let i = choose|i: int| 0 <= i < kv__@.len() && #[trigger] kv__@[i] == k; assert(pqs.contains(sq[i])); assert(keyset(pqs).contains((sq[i].0, sq[i].1.1))); }
+                if keyset(pqs).contains(k) { let e = choose|e: (String, (String, Pt))| pqs.contains(e) && k == (e.0, e.1.1); let i = choose|i: int| 0 <= i < sq.len() && #[trigger] sq[i] == e; assert(kv__@[i] == k); }
+            }
+            assert(sorted_by_poly_and_point@ =~= keyset(pqs));
+        }
+//@rw * /poly_label\.clone\(\)/ => string_to_string(&poly_label)
+//@rw 1 /(?s)let poly_evals = Evaluations::from_iter\(\s*sorted_by_poly_and_point\s*\.into_iter\(\)\s*\.zip\(evals\.clone\(\)\.unwrap\(\)\)\s*\.map\(\|\(\(poly_label, point\), eval\)\| (.*?)\),\s*\);/ => let ks__: Vec<(String, Pt)> = keyset_into_sorted_vec(sorted_by_poly_and_point);
+        let ev__: Vec<Fr> = opt_vec_clone_unwrap(evals);
+        let pairs__: Vec<((String, Pt), Fr)> = ks__.into_iter().zip(ev__).map(|t__: ((String, Pt), Fr)| -> (o: ((String, Pt), Fr)) ensures o == t__ { let ((poly_label, point), eval) = t__; \1 }).collect();
+        let poly_evals: BTreeMap<(String, Pt), Fr> = btree_from_pairs(pairs__);
+        proof {
+            let ks = kseq(keyset(poly_query_set@)); let vs = evals->Some_0@; let n = lmin(ks.len(), vs.len());
+            lemma_pm(ks, vs, n);
+            assert(pairs__@.len() == n);
+            assert forall|i: int| 0 <= i < n implies pairs__@[i] == (ks[i], vs[i]) by { }
+            assert forall|k: (String, Pt)| poly_evals@.dom().contains(k) == pm(ks, vs, n).dom().contains(k) by {
+                if poly_evals@.dom().contains(k) { let i = choose|i: int| 0 <= i < pairs__@.len() && (#[trigger] pairs__@[i]).0 == k; assert(ks[i] == k); }
+                if pm(ks, vs, n).dom().contains(k) { let i = choose|i: int| 0 <= i < n && #[trigger] ks[i] == k; assert(pairs__@[i].0 == k); }
+            }
+            assert forall|k: (String, Pt)| poly_evals@.dom().contains(k) implies poly_evals@[k] == pm(ks, vs, n)[k] by {
+                let i = choose|i: int| 0 <= i < n && #[trigger] ks[i] == k;
+                assert forall|j: int| i < j < pairs__@.len() implies pairs__@[j].0 != pairs__@[i].0 by { assert(ks[j] != ks[i]); }
+                assert(poly_evals@[pairs__@[i].0] == pairs__@[i].1);
+            }
+            assert(poly_evals@ =~= pevals_spec(poly_query_set@, *evals));
+        }
 //@rw 1 /for &\(ref lc_label, \(_, ref point\)\) in([^{]*?)eqn_query_set([^{]*)\{/ => let qv__ = query_set_to_vec(eqn_query_set); for q__ in\1qv__.iter()\2{ let lc_label: &String = &q__.0; let point: &Pt = &q__.1.1;
 //@rw 1 /lc_s\.get\(lc_label\)/ => btree_get_by_label(&lc_s, lc_label)
 //@rw 1 /lc_label\.clone\(\)/ => string_to_string(lc_label)
